@@ -218,6 +218,31 @@ def run(ctx):
         if n % 2:
             e = e * _NST("Z", (a_,))
         add(Expr(e, target_idx=[]), f"emptytg{n}")
+    # bra-ket (anti)symmetric tensor with two target indices in opposite
+    # groups, each next to a contracted index; the second term exchanges the
+    # contracted indices on a non-symmetric remainder (the two terms are NOT
+    # equivalent: merging them changes the value)
+    from adcgen.sympy_objects import (AntiSymmetricTensor as _AST,
+                                      SymmetricTensor as _ST)
+    n_bk = 0
+    for cls_, nm_, bks_ in ((_AST, "d", 1), (_AST, "d", -1), (_ST, "L", 1),
+                            (_AST, "V", 1), (_AST, "d", 0)):
+        for spx in ("oo", "ov"):
+            occ, virt = G.pool("o", 6), G.pool("v", 6)
+            x_, y_ = (occ[0], occ[1])
+            c1, c2 = (virt[0], virt[1]) if spx == "ov" else (occ[2], occ[3])
+            T = cls_(nm_, (x_, c1), (y_, c2), bks_)
+            Xa = _NST("X", (c1, c2))
+            Xb = _NST("X", (c2, c1))
+            for sg in (1, -1):
+                e = G.random_coef(rng) * T * Xa + sg * G.random_coef(rng) \
+                    * T * Xb
+                if e == 0:
+                    continue
+                for tgx in ([x_, y_], None):
+                    add(Expr(e, target_idx=tgx) if tgx is not None
+                        else Expr(e), f"braket-targets{n_bk}")
+                    n_bk += 1
     for label, E in derivations.captured_simplify_inputs(ctx, quick):
         add(E, label)
 
